@@ -531,3 +531,12 @@ def main_wrapper(fn):
         print(f"TOOL-ERROR: {e}", file=sys.stderr)
         clean_work()
         sys.exit(2)
+    except SystemExit:
+        raise
+    except BaseException:
+        # a crash of the machinery is never a verdict
+        import traceback
+        traceback.print_exc()
+        print("TOOL-ERROR: unexpected exception in the check (see traceback)", file=sys.stderr)
+        clean_work()
+        sys.exit(2)
